@@ -37,6 +37,10 @@ func init() {
 			if strings.HasPrefix(kind, "ec-sec1") {
 				b, _ := x509.MarshalECPrivateKey(key)
 				keyPem = pemOf("EC PRIVATE KEY", b)
+				if strings.HasPrefix(kind, "ec-sec1-params") {
+					// what `openssl ecparam -genkey` writes: an EC PARAMETERS block (the curve OID) in front of the key
+					keyPem = append(pemOf("EC PARAMETERS", []byte{0x06, 0x08, 0x2a, 0x86, 0x48, 0xce, 0x3d, 0x03, 0x01, 0x07}), keyPem...)
+				}
 			} else {
 				b, _ := x509.MarshalPKCS8PrivateKey(key)
 				keyPem = pemOf("PRIVATE KEY", b)
